@@ -47,6 +47,16 @@ from rsocket.transports.transport import Transport
 T = TypeVar('T')
 
 
+class _ReservedStreamId(StreamHandler):
+    """Placeholder which keeps the stream id of a fire-and-forget request in use until its frame was sent."""
+
+    def setup(self):
+        pass
+
+    def frame_received(self, frame: Frame):
+        pass
+
+
 class RSocketBase(RSocket, RSocketInternal):
     class LeaseSubscriber(DefaultSubscriber):
         def __init__(self, socket: 'RSocketBase'):
@@ -507,6 +517,8 @@ class RSocketBase(RSocket, RSocketInternal):
         logger().debug('%s: fire-and-forget: %s', self._log_identifier(), payload)
 
         stream_id = self._allocate_stream()
+        # keep the id in use until the frame was sent: the allocator must not hand it to another request meanwhile
+        self._register_stream(stream_id, _ReservedStreamId(self))
         frame = to_fire_and_forget_frame(stream_id, payload, self._fragment_size_bytes)
         self.send_request(frame)
         frame.sent_future.add_done_callback(lambda _: self.finish_stream(stream_id))
